@@ -94,6 +94,16 @@ func runHistory(ops string) (msg string, boundary bool) {
 			h.Add(next)
 			m.add(next)
 			next++
+		case 'e': // add a value equal to the current entry: still a new page
+			v := next
+			if len(m.elems) > 0 {
+				v = m.elems[m.idx]
+			}
+			if len(m.elems) > 0 && m.idx < len(m.elems)-1 {
+				boundary = true
+			}
+			h.Add(v)
+			m.add(v)
 		case 'b':
 			if m.idx == 0 {
 				boundary = true
@@ -309,20 +319,20 @@ func TestVerifC18(t *testing.T) {
 	caseNo := 0
 
 	// Part 1: history, every sequence of exactly histLen ops (all shorter ones are prefixes)
-	total := pow(3, histLen)
+	total := pow(4, histLen-1)
 	for start := 0; start < total; start += batch {
 		n := caseNo
 		caseNo++
-		if !c.Mine(n) || !c.Begin(n, fmt.Sprintf("history batch %d..%d of 3^%d", start, start+batch, histLen)) {
+		if !c.Mine(n) || !c.Begin(n, fmt.Sprintf("history batch %d..%d of 4^%d", start, start+batch, histLen-1)) {
 			continue
 		}
 		c.R.Evaluations-- // counted per sequence below
 		for s := start; s < start+batch && s < total; s++ {
-			ops := make([]byte, histLen)
+			ops := make([]byte, histLen-1)
 			x := s
 			for i := range ops {
-				ops[i] = "abf"[x%3]
-				x /= 3
+				ops[i] = "abfe"[x%4]
+				x /= 4
 			}
 			seq := string(ops)
 			c.R.Evaluations++
@@ -338,7 +348,7 @@ func TestVerifC18(t *testing.T) {
 			c.Count("history_sequences_enumerated", 1)
 		}
 		if start == 0 {
-			c.Sample(map[string]any{"container": "history", "ops": "abf-sequences in base 3, e.g. " + "aababfafb"})
+			c.Sample(map[string]any{"container": "history", "ops": "sequences over a(dd new) e(add a value equal to the current one) b(ack) f(orward), e.g. aaebfafbe"})
 		}
 	}
 
@@ -429,7 +439,7 @@ func randomHist(r *rand.Rand) string {
 		case r.Intn(3) == 0:
 			b[i] = "abf"[bias]
 		default:
-			b[i] = "abf"[r.Intn(3)]
+			b[i] = "abfe"[r.Intn(4)]
 		}
 	}
 	return string(b)
